@@ -398,3 +398,31 @@ pub fn kill_native(state: u8) -> u32 {
     assert!(conn.endpoint_events.len() == 1 && matches!(conn.endpoint_events[0], EndpointEventInner::Drained), "Drained not reported exactly once");
     1
 }
+
+/// Native replay body for the E2 query `e2_update_rem_cid` (C09): switching to the next remote CID
+/// queues RETIRE_CONNECTION_ID for every sequence number given up (Data space) and announces the
+/// new CID's stateless-reset token to the endpoint.
+pub fn update_rem_cid_native(have_next: bool) -> u32 {
+    let mut conn = mk_conn(false, false);
+    while conn.endpoint_events.pop_front().is_some() {}
+    let token = ResetToken::from([0x5a; 16]);
+    if have_next {
+        // sequence 1 is skipped (never issued), sequence 2 is the next usable CID
+        conn.rem_cids
+            .insert(frame::NewConnectionId { sequence: 2, retire_prior_to: 0, id: ConnectionId::new(&[8; 8]), reset_token: token })
+            .unwrap();
+    }
+    let before = conn.spaces[SpaceId::Data].pending.retire_cids.clone();
+    conn.update_rem_cid();
+    if !have_next {
+        assert!(conn.spaces[SpaceId::Data].pending.retire_cids == before && conn.endpoint_events.is_empty());
+        return 1;
+    }
+    assert!(conn.rem_cids.active_seq() == 2);
+    let retire = &conn.spaces[SpaceId::Data].pending.retire_cids;
+    assert!(retire.contains(&0) && retire.contains(&1) && retire.len() == before.len() + 2, "skipped sequence numbers not queued for retirement in the Data space");
+    assert!(conn.spaces[SpaceId::Handshake].pending.retire_cids.is_empty() && conn.spaces[SpaceId::Initial].pending.retire_cids.is_empty());
+    assert!(conn.peer_params.stateless_reset_token == Some(token));
+    assert!(matches!(conn.endpoint_events.pop_front(), Some(EndpointEventInner::ResetToken(a, t)) if a == conn.path.remote && t == token), "reset token of the new CID not announced");
+    2
+}
